@@ -19,6 +19,7 @@ import (
 	"github.com/emitter-io/emitter/internal/security/hash"
 	"github.com/emitter-io/emitter/verif/bk"
 	"github.com/emitter-io/emitter/verif/core"
+	"github.com/emitter-io/emitter/verif/drivers/session"
 	vcrdt "github.com/emitter-io/emitter/verif/drivers/crdt"
 	"github.com/emitter-io/emitter/verif/meshsender"
 	"github.com/emitter-io/emitter/verif/tlc"
@@ -430,6 +431,17 @@ func set(xs []string) string {
 func Run(c *core.Ctx) {
 	c.Level = "model_checking"
 	Explore(c)
+	// the same property at the level of client sessions: whole behaviours of Session.tla (wildcard filters, several
+	// connections behind one route, presence watchers and last wills crossing brokers) on 2 and 3 real brokers,
+	// gossip run to quiescence after every request; plus overlapping requests on two brokers
+	num := 12
+	if !c.Quick() {
+		num = 150
+	}
+	what := "at gossip quiescence the cluster does not behave like the one broker of the session specification (deliveries, notifications, routes)"
+	session.ClusterStage(c, what, 2, false, []string{"pubsub", "presence", "ending"}, num, 14)
+	session.ClusterStage(c, what, 3, false, []string{"pubsub", "ending"}, num/2, 14)
+	session.HammerStage(c, what, 2, 60, 2)
 	c.Finish()
 }
 
